@@ -369,8 +369,9 @@ def run_env_case(case):
         elif after == "exit":
             action = np.array([0.0 if j == ci else tgt[j] for j in range(2)])
         elif after == "enter":
-            # a NEW position in the faulted contract is requested (it may be flat so far)
-            action = np.array([0.25 if j == ci else tgt[j] for j in range(2)])
+            # a NEW position in the faulted contract is requested once the fault is present (it is flat until then
+            # when the initial target gives it no weight)
+            action = np.array([0.25 if (j == ci and step > k) else tgt[j] for j in range(2)])
         else:
             action = np.array([tgt[j] if j == ci else tgt[j] / 2 for j in range(2)])
         b = env.broker
